@@ -508,6 +508,51 @@ def body_output(ctx):
     _judge(ctx, name, fb, exc, want, case, True, False)
 
 
+OWN_ASSERTS = [('assert_equal', 3, 3), ('assert_equal', 3, 4), ('assert_not_equal', 3, 3), ('assert_less', 3, 4),
+               ('assert_less', 4, 3), ('assert_in', 3, [3]), ('assert_in', 5, [3]), ('assert_is_none', None, None),
+               ('assert_true', 0, None), ('assert_length_equal', [1, 2], 2), ('assert_length_equal', [1, 2], 3),
+               ('assert_is_instance', 3, int), ('assert_is_instance', 'a', int)]
+
+
+def body_own_report(ctx):
+    """Assertions addressed to a Report of the caller's own (report= on the calls and on the assertion): the failing
+    feedback lands there and only there, and the verdict is the same."""
+    from pedal.core.report import Report
+    name, a, b = OWN_ASSERTS[ctx.choose(len(OWN_ASSERTS), 'assertion')]
+    wrap = ctx.choose(2, 'left-proxied')
+    case = {'assertion': name, 'left': repr(a), 'right': repr(b), 'proxied': bool(wrap), 'report': 'own'}
+    ctx.observe(repr(case))
+    ctx.set_sample(case)
+    ctx.mark_nontrivial(repr(case))
+    _trim()
+    mine = Report()
+    cmds.contextualize_report(STUDENT, report=mine)
+    sb_cmds.run(report=mine)
+    left = sb_cmds.call('identity', a, report=mine) if wrap else a
+    g0 = (len(MAIN_REPORT.feedback), len(MAIN_REPORT.ignored_feedback))
+    args = (left,) if name in ('assert_is_none', 'assert_true') else (left, b)
+    import operator
+    rel = {'assert_equal': lambda: a == b, 'assert_not_equal': lambda: a != b, 'assert_less': lambda: a < b,
+           'assert_in': lambda: a in b, 'assert_is_none': lambda: a is None, 'assert_true': lambda: bool(a),
+           'assert_length_equal': lambda: len(a) == b, 'assert_is_instance': lambda: isinstance(a, b)}[name]()
+    ctx.step(name + '(report=own)')
+    try:
+        fb = getattr(R, name)(*args, report=mine)
+    except Exception as e:
+        ctx.fail({'symptom': 'assertion with report=own raised', 'assertion': name, 'exception': type(e).__name__}, case=case,
+                 message=str(e)[:200])
+        return
+    fired = bool(fb)
+    on_mine = any(f is fb for f in mine.feedback)
+    if fired == rel:
+        ctx.fail({'symptom': 'assertion on an own report has the wrong verdict', 'assertion': name}, case=case, fired=fired)
+    if fired and not on_mine:
+        ctx.fail({'symptom': 'failing assertion is not recorded on the own report', 'assertion': name}, case=case)
+    if (len(MAIN_REPORT.feedback), len(MAIN_REPORT.ignored_feedback)) != g0:
+        ctx.fail({'symptom': 'assertion with report=own recorded something on the global report', 'assertion': name}, case=case)
+    ctx.outcome('own:%s' % ('fires' if fired else 'silent'))
+
+
 def bounds(tier):
     return {'binary_assertions': len(BINARY) + 2, 'values': len(CORE if tier == 'quick' else VALUES) + 2,
             'wrappings': 4, 'unary_assertions': len(UNARY), 'types': len(TYPES), 'regexes': len(REGEXES),
@@ -524,6 +569,8 @@ def phases(tier):
         Phase('unary', body_unary, setup=_setup, chunk=200, describe='truthiness / None-ness x value x wrapping'),
         Phase('instance-type', body_instance, setup=_setup, chunk=200, describe='instance/type assertions x value x type'),
         Phase('regex', body_regex, setup=_setup, chunk=100, describe='regex assertions x pattern x text'),
+        Phase('own-report', body_own_report, setup=_setup, chunk=100,
+              describe='assertions addressed to a caller-owned Report (calls and assertion with report=)'),
         Phase('output', body_output, setup=_setup, chunk=100, describe='output assertions x printing function x text'),
         Phase('unit_test', c03.body_unit_test, setup=c03._setup, describe='unit_test() pass/fail/error patterns'),
     ]
